@@ -121,7 +121,7 @@ static void roundtrip(Rng& r, Ctx& c, const Entry& e)
   // ---- load
   bool differs = false; // a getter/behaviour difference was already reported: the text of a second save differs for the same reason
   Obj o2 = e.load(n1);
-  c.truth("load", "C08:" + cls + ":createFromNF-null", (bool)o2, "createFromNF returned null on the file just written");
+  c.truth("load", "C08:" + cls + ":reload-failed", (bool)o2, "createFromNF returned null on the file just written");
   if (o2)
   {
     Cmp cmp;
@@ -154,7 +154,7 @@ static void roundtrip(Rng& r, Ctx& c, const Entry& e)
     std::istringstream is(os.str());
     bool okd = false;
     Obj o4   = e.deser(is, okd);
-    c.truth("stream", "C08:" + cls + ":deserialize-failed", okd, "deserialize(istream) returned false on serialize() output");
+    c.truth("stream", "C08:" + cls + ":reload-failed", okd, "deserialize(istream) returned false on serialize() output");
     if (okd && o4 && o2)
     {
       Cmp cmp;
@@ -167,7 +167,7 @@ static void roundtrip(Rng& r, Ctx& c, const Entry& e)
       {
         bool same2 = (os2.str() == os.str());
         if (!same2 && differs) c.skip("stream-resave:explained-by-reported-difference");
-        else c.truth("stream", "C08:" + cls + ":stream-resave-differs", same2, same2 ? "" : firstDiffLine(os.str(), os2.str()));
+        else c.truth("stream", "C08:" + cls + ":resave-differs", same2, same2 ? "" : firstDiffLine(os.str(), os2.str()));
       }
     }
   }
